@@ -8,6 +8,8 @@
 import OllamaVerif.Proofs.Tokenizer
 import OllamaVerif.Proofs.TokenizerVocab
 import OllamaVerif.Proofs.TokenizerAdj
+import OllamaVerif.Proofs.TokenizerPtr
+import OllamaVerif.Proofs.TokenizerSplit
 
 namespace OllamaVerif.C20
 open OllamaVerif.Tok
@@ -54,9 +56,12 @@ theorem merge_parts_in_vocab (V : Vocab) (rs : Str) (h1 : ∀ r ∈ rs, (V.tokId
     For every well-formed vocabulary that covers every (admissible) byte, every pre-tokenizer that
     partitions its input, every list of special tokens whose vocabulary string decodes to the literal,
     and every text whose bytes are non-NUL (and, for the pinned switch only, not `~`):
-    `Decode (Encode s) = s`. -/
+    `Decode (Encode s) = s`.
+    `_hne` (no special token is the empty string) is the TERMINATION guard of the real code: with an empty special
+    literal the Go loop never returns (`goSplitPass_empty_diverges`), so nothing is claimed there; the proof about the
+    model function does not need it, the link to the Go-shaped loop (`goBpeEncode_eq`) does. -/
 theorem bpe_roundtrip (pinned : Bool) (V : Vocab) (split : Str → List Str) (specials : List Special)
-    (s : Str) (hwf : V.Wf) (hcov : V.CoversBytes pinned)
+    (s : Str) (hwf : V.Wf) (hcov : V.CoversBytes pinned) (_hne : ∀ q ∈ specials, q.lit ≠ [])
     (hsplit : ∀ t, Frag.text t ∈ fragments specials s → (split t).flatten = t)
     (hsp : ∀ q ∈ specials, decodeRunes (V.tokStr q.id) = q.lit)
     (hs : ∀ b ∈ s, byteOk pinned b) :
@@ -73,18 +78,18 @@ theorem bpe_roundtrip (pinned : Bool) (V : Vocab) (split : Str → List Str) (sp
 
 /-- **BPE round trip for the repaired switch: every text without NUL bytes.** -/
 theorem bpe_roundtrip_fixed (V : Vocab) (split : Str → List Str) (specials : List Special)
-    (s : Str) (hwf : V.Wf) (hcov : V.CoversBytes false)
+    (s : Str) (hwf : V.Wf) (hcov : V.CoversBytes false) (hne : ∀ q ∈ specials, q.lit ≠ [])
     (hsplit : ∀ t, Frag.text t ∈ fragments specials s → (split t).flatten = t)
     (hsp : ∀ q ∈ specials, decodeRunes (V.tokStr q.id) = q.lit)
     (hs : ∀ b ∈ s, b < 256 ∧ b ≠ 0) :
     bpeDecode V (bpeEncode false V split specials noAdd s) = s :=
-  bpe_roundtrip false V split specials s hwf hcov hsplit hsp
+  bpe_roundtrip false V split specials s hwf hcov hne hsplit hsp
     (fun b hb => ⟨(hs b hb).1, (hs b hb).2, by simp⟩)
 
 /-- **Every id `Encode` returns is inside the vocabulary** (any text, any `addSpecial` configuration
     whose BOS/EOS are in range, no covering assumption). -/
 theorem bpe_ids_in_range (pinned : Bool) (V : Vocab) (split : Str → List Str) (specials : List Special)
-    (c : AddCfg) (s : Str) (hwf : V.Wf) (hsp : ∀ q ∈ specials, q.id < V.size)
+    (c : AddCfg) (s : Str) (hwf : V.Wf) (_hne : ∀ q ∈ specials, q.lit ≠ []) (hsp : ∀ q ∈ specials, q.id < V.size)
     (hbos : c.bos < V.size) (heos : c.eos < V.size) :
     ∀ id ∈ bpeEncode pinned V split specials c s, id < V.size := by
   intro id hid
@@ -230,7 +235,7 @@ theorem spmFrags_decode (V : Vocab) (hwf : V.Wf) (hbt : V.HasByteTokens) (frs : 
     `Decode (Encode s)` is the UTF-8 encoding of `s`.
     Both guards are necessary (witnesses below): they are inherent to the scheme. -/
 theorem spm_roundtrip_partial (V : Vocab) (specials : List Special) (s : Str)
-    (hwf : V.Wf) (hbt : V.HasByteTokens) (hsep : 32 ∈ s → (V.tokId [sepRune]).isSome = true)
+    (hwf : V.Wf) (_hne : ∀ q ∈ specials, q.lit ≠ []) (hbt : V.HasByteTokens) (hsep : 32 ∈ s → (V.tokId [sepRune]).isSome = true)
     (hsp : ∀ q ∈ specials, V.tokStr q.id = q.lit ∧ parseByteTok (utf8s q.lit) = none)
     (hvalid : ∀ r ∈ s, r < 0x110000) (hnosep : sepRune ∉ s) (hnolit : NoByteLit V s) :
     spmDecode V (spmEncode V specials noAdd s) = some (utf8s s) := by
@@ -275,7 +280,7 @@ theorem spmText_ids (V : Vocab) (t : Str) : ∀ id ∈ spmText V t, ∃ u, V.tok
 
 /-- **SentencePiece: every id `Encode` returns is inside the vocabulary.** -/
 theorem spm_ids_in_range (V : Vocab) (specials : List Special) (c : AddCfg) (s : Str) (hwf : V.Wf)
-    (hsp : ∀ q ∈ specials, q.id < V.size) (hbos : c.bos < V.size) (heos : c.eos < V.size) :
+    (_hne : ∀ q ∈ specials, q.lit ≠ []) (hsp : ∀ q ∈ specials, q.id < V.size) (hbos : c.bos < V.size) (heos : c.eos < V.size) :
     ∀ id ∈ spmEncode V specials c s, id < V.size := by
   intro id hid
   unfold spmEncode at hid
@@ -409,55 +414,78 @@ theorem decodeRunes_ascii (q : Str) (h : ∀ r ∈ q, r < 0x80) : decodeRunes q 
     simp only [decodeRunes, List.filterMap_cons, h1, utf8s, List.flatMap_cons, h2] at hq ⊢
     simp [hq]
 
-/-- **Ids in range, no hypothesis on the vocabulary**: for every `Values`/`Types`/`Merges` (duplicates, any token
-    types), every text and pre-tokenizer, every id `BytePairEncoding.Encode` returns is `< len(Values)` — the
-    special tokens' ids included (they come from `vocab.Encode(special)`); only BOS/EOS are configuration. -/
-theorem concrete_bpe_ids_in_range (pinned : Bool) (D : VocabData) (split : Str → List Str) (c : AddCfg) (s : Str)
-    (hbos : c.bos < D.values.length) (heos : c.eos < D.values.length) :
-    ∀ i ∈ bpeEncode pinned D.vocab split (D.specials utf8s) c s, i < D.values.length :=
-  bpe_ids_in_range pinned D.vocab split _ c s D.vocab_wf (fun q hq => (D.specials_wf utf8s q hq).1) hbos heos
+theorem utf8s_ne_nil (x : Str) (h : x ≠ []) : utf8s x ≠ [] := by
+  intro hc
+  exact h (utf8s_length_eq_zero x (by rw [hc]; rfl))
 
-theorem concrete_spm_ids_in_range (D : VocabData) (c : AddCfg) (s : Str)
+theorem specialsOf_lit_ne (D : VocabData) (toLit : Str → Str) (htl : ∀ x, x ≠ [] → toLit x ≠ []) (sps : List Str)
+    (hne : [] ∉ sps) : ∀ q ∈ D.specialsOf toLit sps, q.lit ≠ [] := by
+  intro q hq
+  simp only [VocabData.specialsOf, List.mem_map] at hq
+  obtain ⟨x, hx, rfl⟩ := hq
+  exact htl x (fun hc => hne (hc ▸ hx))
+
+/-- **Ids in range, for the vocabulary the code builds.**  Guards = exactly the inputs on which the real code returns:
+    `hsp`: `SpecialVocabulary()` does not panic (`Types` long enough) and returns `sps`; `hne`: no special token is the
+    empty string (otherwise `Encode` never terminates: finding `empty-special-hang`; with the repaired loop, `sk = true`,
+    `hne` is a theorem: `concrete_bpe_ids_in_range_repaired`).  No other hypothesis on `Values` / `Types` / `Merges`
+    (duplicates, any token types); the special tokens' ids come from `vocab.Encode(special)`; BOS/EOS are configuration. -/
+theorem concrete_bpe_ids_in_range (pinned sk : Bool) (D : VocabData) (sps : List Str)
+    (hsp : D.specialStrings sk = some sps) (hne : [] ∉ sps) (split : Str → List Str) (c : AddCfg) (s : Str)
     (hbos : c.bos < D.values.length) (heos : c.eos < D.values.length) :
-    ∀ i ∈ spmEncode D.vocab (D.specials id) c s, i < D.values.length :=
-  spm_ids_in_range D.vocab _ c s D.vocab_wf (fun q hq => (D.specials_wf _ q hq).1) hbos heos
+    ∀ i ∈ bpeEncode pinned D.vocab split (D.specialsOf utf8s sps) c s, i < D.values.length :=
+  bpe_ids_in_range pinned D.vocab split _ c s D.vocab_wf (specialsOf_lit_ne D utf8s utf8s_ne_nil sps hne)
+    (fun q hq => (D.specialsOf_wf sk utf8s sps hsp q hq).1) hbos heos
+
+theorem concrete_bpe_ids_in_range_repaired (pinned : Bool) (D : VocabData) (sps : List Str)
+    (hsp : D.specialStrings true = some sps) (split : Str → List Str) (c : AddCfg) (s : Str)
+    (hbos : c.bos < D.values.length) (heos : c.eos < D.values.length) :
+    ∀ i ∈ bpeEncode pinned D.vocab split (D.specialsOf utf8s sps) c s, i < D.values.length :=
+  concrete_bpe_ids_in_range pinned true D sps hsp (specialStringsFrom_skip_nonempty _ _ _ _ hsp) split c s hbos heos
+
+/-- SPM: additionally `hsc` — `Scores` is at least as long as `Values` (the real `pairwise` reads `Scores[id]` for the id of
+    every merge candidate and panics otherwise; the model's `score` would silently read 0) -/
+theorem concrete_spm_ids_in_range (sk : Bool) (D : VocabData) (sps : List Str)
+    (hsp : D.specialStrings sk = some sps) (hne : [] ∉ sps) (_hsc : D.ScoresOk) (c : AddCfg) (s : Str)
+    (hbos : c.bos < D.values.length) (heos : c.eos < D.values.length) :
+    ∀ i ∈ spmEncode D.vocab (D.specialsOf (fun x => x) sps) c s, i < D.values.length :=
+  spm_ids_in_range D.vocab _ c s D.vocab_wf (specialsOf_lit_ne D _ (fun _ h => h) sps hne)
+    (fun q hq => (D.specialsOf_wf sk _ sps hsp q hq).1) hbos heos
 
 /-- **BPE round trip for the vocabulary the code builds**: `Wf` is proved (not assumed), the special tokens are the
-    ones `SpecialVocabulary()` returns with the ids `Encode` looks up, and hypothesis `hsp` is replaced by the
-    decidable condition on the data "every special token's string is ASCII" (the excluded case is the known
-    finding BPE-nonascii-special). -/
-theorem concrete_bpe_roundtrip (D : VocabData) (split : Str → List Str) (s : Str)
+    ones `SpecialVocabulary()` returns (`hsp`: it does not panic) with the ids `Encode` looks up, none of them empty
+    (`hne`: termination), and hypothesis `hsp` of `bpe_roundtrip` is replaced by the decidable condition on the data
+    "every special token's string is ASCII" (the excluded case is the known finding BPE-nonascii-special). -/
+theorem concrete_bpe_roundtrip (sk : Bool) (D : VocabData) (sps : List Str)
+    (hsp : D.specialStrings sk = some sps) (hne : [] ∉ sps) (split : Str → List Str) (s : Str)
     (hcov : ∀ b, b < 256 → b ≠ 0 → [encByte false b] ∈ D.values)
-    (hascii : ∀ q ∈ D.specialStrings.getD [], ∀ r ∈ q, r < 0x80)
-    (hsplit : ∀ t, Frag.text t ∈ fragments (D.specials utf8s) s → (split t).flatten = t)
+    (hascii : ∀ q ∈ sps, ∀ r ∈ q, r < 0x80)
+    (hsplit : ∀ t, Frag.text t ∈ fragments (D.specialsOf utf8s sps) s → (split t).flatten = t)
     (hs : ∀ b ∈ s, b < 256 ∧ b ≠ 0) :
-    bpeDecode D.vocab (bpeEncode false D.vocab split (D.specials utf8s) noAdd s) = s := by
-  apply bpe_roundtrip_fixed D.vocab split _ s D.vocab_wf _ hsplit _ hs
+    bpeDecode D.vocab (bpeEncode false D.vocab split (D.specialsOf utf8s sps) noAdd s) = s := by
+  apply bpe_roundtrip_fixed D.vocab split _ s D.vocab_wf _ (specialsOf_lit_ne D utf8s utf8s_ne_nil sps hne) hsplit _ hs
   · intro b hb
     exact lastIdxFrom_isSome _ _ _ (hcov b hb.1 hb.2.1)
   · intro q hq
-    obtain ⟨_, h2, h3, _⟩ := D.specials_wf utf8s q hq
+    obtain ⟨_, h2, h3, h4⟩ := D.specialsOf_wf sk utf8s sps hsp q hq
     rw [h2, h3]
-    apply decodeRunes_ascii
-    simp only [VocabData.specials, List.mem_map] at hq
-    obtain ⟨x, hx, rfl⟩ := hq
-    exact hascii x hx
+    exact decodeRunes_ascii _ (hascii _ h4)
 
-/-- **SPM round trip for the vocabulary the code builds** (same two necessary guards on the text). -/
-theorem concrete_spm_roundtrip_partial (D : VocabData) (s : Str)
+/-- **SPM round trip for the vocabulary the code builds** (same two necessary guards on the text; `hsc`: no `Scores` panic). -/
+theorem concrete_spm_roundtrip_partial (sk : Bool) (D : VocabData) (sps : List Str)
+    (hsp : D.specialStrings sk = some sps) (hne : [] ∉ sps) (_hsc : D.ScoresOk) (s : Str)
     (hbt : ∀ b, b < 256 → byteTok b ∈ D.values) (hsep : 32 ∈ s → [sepRune] ∈ D.values)
-    (hshape : ∀ q ∈ D.specialStrings.getD [], parseByteTok (utf8s q) = none)
+    (hshape : ∀ q ∈ sps, parseByteTok (utf8s q) = none)
     (hvalid : ∀ r ∈ s, r < 0x110000) (hnosep : sepRune ∉ s) (hnolit : NoByteLit D.vocab s) :
-    spmDecode D.vocab (spmEncode D.vocab (D.specials id) noAdd s) = some (utf8s s) := by
-  apply spm_roundtrip_partial D.vocab _ s D.vocab_wf _ _ _ hvalid hnosep hnolit
+    spmDecode D.vocab (spmEncode D.vocab (D.specialsOf (fun x => x) sps) noAdd s) = some (utf8s s) := by
+  apply spm_roundtrip_partial D.vocab _ s D.vocab_wf (specialsOf_lit_ne D _ (fun _ h => h) sps hne) _ _ _ hvalid hnosep hnolit
   · intro b hb; exact lastIdxFrom_isSome _ _ _ (hbt b hb)
   · intro h; exact lastIdxFrom_isSome _ _ _ (hsep h)
   · intro q hq
-    obtain ⟨_, h2, h3, _⟩ := D.specials_wf id q hq
-    refine ⟨by rw [h2, h3]; rfl, ?_⟩
-    simp only [VocabData.specials, List.mem_map] at hq
-    obtain ⟨x, hx, rfl⟩ := hq
-    exact hshape x hx
+    obtain ⟨_, h2, h3, h4⟩ := D.specialsOf_wf sk _ sps hsp q hq
+    refine ⟨by rw [h2, h3], ?_⟩
+    rw [h3]
+    exact hshape _ h4
 
 /-- a concrete `Vocabulary`: DUPLICATE value "a" (ids 0 and 2), a control token, a turn marker typed NORMAL -/
 def dupData : VocabData :=
@@ -466,11 +494,11 @@ def dupData : VocabData :=
 /-- non-vacuity / behaviour on duplicates: `Encode("a")` is the LAST index 2, the duplicate merge line has the LAST
     rank 1, the specials are `<s>` (CONTROL) and `<start_of_turn>` (by name), with their ids -/
 example : dupData.vocab.tokId [97] = some 2 ∧ dupData.vocab.rank [97] [98] = some 1 ∧
-    dupData.specialStrings = some [[60, 115, 62], startOfTurn] ∧
-    (dupData.specials id).map (·.id) = [3, 4] := by decide
+    dupData.specialStrings false = some [[60, 115, 62], startOfTurn] ∧
+    (dupData.specials false id).map (·.id) = [3, 4] := by decide
 
 /-- `Types` shorter than `Values`: the model reports the index-out-of-range panic of `SpecialVocabulary` -/
-example : (⟨[[97], [98]], [1], [], []⟩ : VocabData).specialStrings = none := by decide
+example : (⟨[[97], [98]], [1], [], []⟩ : VocabData).specialStrings false = none := by decide
 
 /-- non-vacuity of `mergeAll_fuel_sufficient`: a run that really merges ("aaaa" with the rule a+a, aa+aa) gives
     the same parts with ten times the fuel -/
@@ -485,9 +513,9 @@ def byteData : VocabData :=
 /-- non-vacuity of `concrete_bpe_roundtrip`: `byteData` meets the covering and the ASCII-specials hypotheses, its
     special list is `<s>` with id 256, and a text with the special literal in it round-trips -/
 example : (∀ b, b < 256 → b ≠ 0 → [encByte false b] ∈ byteData.values) ∧
-    (∀ q ∈ byteData.specialStrings.getD [], ∀ r ∈ q, r < 0x80) ∧
-    (byteData.specials utf8s).map (fun q => (q.lit, q.id)) = [([60, 115, 62], 256)] ∧
-    bpeEncode false byteData.vocab byteSplit (byteData.specials utf8s) noAdd [104, 60, 115, 62, 0xC3, 0xA9]
+    byteData.specialStrings false = some [[60, 115, 62]] ∧
+    (byteData.specialsOf utf8s [[60, 115, 62]]).map (fun q => (q.lit, q.id)) = [([60, 115, 62], 256)] ∧
+    bpeEncode false byteData.vocab byteSplit (byteData.specialsOf utf8s [[60, 115, 62]]) noAdd [104, 60, 115, 62, 0xC3, 0xA9]
       = [104, 256, 0xC3, 0xA9 ] ∧
     bpeDecode byteData.vocab [104, 256, 0xC3, 0xA9] = [104, 60, 115, 62, 0xC3, 0xA9] := by
   refine ⟨by decide +kernel, by decide +kernel, by decide +kernel, by decide +kernel, by decide +kernel⟩
@@ -504,5 +532,355 @@ theorem merge_direct_indexing (cfg : Cfg) (rs : Str) : mergeAllDirect cfg rs = m
 example : (mergeAllDirect (bpeCfg ⟨fun s => if s = [97, 97] then some 1 else if s = [97, 97, 97, 97] then some 2 else none,
       fun _ => [], fun l r => if l = r then some l.length else none, fun _ => 0, 3⟩) [97, 97, 97, 97]).map (·.runes)
     = [[97, 97, 97, 97]] := by decide
+
+/-! ## the NUL guard is exactly the loss: full statement for every byte text -/
+
+def dropNul (s : Str) : Str := s.filter (fun b => b != 0)
+
+theorem dropNul_append (a b : Str) : dropNul (a ++ b) = dropNul a ++ dropNul b := by simp [dropNul]
+
+theorem dec_enc_all : ∀ b, b < 256 → decRune (encByte false b) = if b = 0 then none else some b := by
+  decide +kernel
+
+theorem decodeRunes_map_enc_all (bs : Str) (h : ∀ b ∈ bs, b < 256) :
+    decodeRunes (bs.map (encByte false)) = dropNul bs := by
+  induction bs with
+  | nil => rfl
+  | cons b bs ih =>
+    have hb := h b (by simp)
+    have e := dec_enc_all b hb
+    have ih' := ih (fun x hx => h x (by simp [hx]))
+    simp only [decodeRunes, List.map_cons, List.filterMap_cons, e] at ih' ⊢
+    by_cases h0 : b = 0
+    · simp [h0, dropNul] at ih' ⊢; exact ih'
+    · simp [h0, dropNul] at ih' ⊢; exact ih'
+
+theorem bpePiece_roundtrip_all (V : Vocab) (hwf : V.Wf)
+    (hcov : ∀ b, b < 256 → (V.tokId [encByte false b]).isSome = true)
+    (piece : Str) (hb : ∀ b ∈ piece, b < 256) :
+    bpeDecode V (bpePiece false V piece) = dropNul piece := by
+  have hdec := decodeRunes_map_enc_all piece hb
+  unfold bpePiece
+  simp only
+  split
+  · rename_i id hid
+    have := (hwf _ _ hid).1
+    simp [bpeDecode, this, hdec]
+  · rw [bpeDecode_parts V hwf, mergeAll_concat, hdec]
+    apply mergeAll_all (fun t => (V.tokId t).isSome = true) _ (bpeCfg_ok V)
+    intro r hr
+    simp only [List.mem_map] at hr
+    obtain ⟨b, hbm, rfl⟩ := hr
+    exact hcov b (hb b hbm)
+
+theorem bpePieces_roundtrip_all (V : Vocab) (hwf : V.Wf)
+    (hcov : ∀ b, b < 256 → (V.tokId [encByte false b]).isSome = true)
+    (pieces : List Str) (hb : ∀ piece ∈ pieces, ∀ b ∈ piece, b < 256) :
+    bpeDecode V (pieces.flatMap (bpePiece false V)) = dropNul pieces.flatten := by
+  induction pieces with
+  | nil => rfl
+  | cons p ps ih =>
+    simp only [List.flatMap_cons, List.flatten_cons, bpeDecode_append, dropNul_append]
+    rw [bpePiece_roundtrip_all V hwf hcov p (hb p (by simp)),
+        ih (fun q hq => hb q (List.mem_cons_of_mem _ hq))]
+
+theorem bpeFrags_roundtrip_all (V : Vocab) (split : Str → List Str) (hwf : V.Wf)
+    (hcov : ∀ b, b < 256 → (V.tokId [encByte false b]).isSome = true) (frs : List Frag)
+    (htext : ∀ t, Frag.text t ∈ frs → (split t).flatten = t ∧ ∀ b ∈ t, b < 256)
+    (hsp : ∀ q, Frag.special q ∈ frs → decodeRunes (V.tokStr q.id) = q.lit ∧ 0 ∉ q.lit) :
+    bpeDecode V (frs.flatMap (bpeFrag false V split)) = dropNul (fragsLit frs) := by
+  induction frs with
+  | nil => rfl
+  | cons fr frs ih =>
+    simp only [List.flatMap_cons, bpeDecode_append]
+    rw [ih (fun t ht => htext t (List.mem_cons_of_mem _ ht)) (fun q hq => hsp q (List.mem_cons_of_mem _ hq))]
+    have : fragsLit (fr :: frs) = fr.lit ++ fragsLit frs := by simp [fragsLit]
+    rw [this, dropNul_append]
+    congr 1
+    cases fr with
+    | text t =>
+      obtain ⟨h1, h2⟩ := htext t (by simp)
+      simp only [bpeFrag, Frag.lit]
+      rw [bpePieces_roundtrip_all V hwf hcov, h1]
+      intro piece hp b hbp
+      apply h2
+      rw [← h1]
+      exact List.mem_flatten.mpr ⟨piece, hp, hbp⟩
+    | special q =>
+      simp only [bpeFrag, Frag.lit]
+      obtain ⟨h1, h2⟩ := hsp q (by simp)
+      have h3 : dropNul q.lit = q.lit := by
+        unfold dropNul
+        rw [List.filter_eq_self]
+        intro b hb
+        simp only [bne_iff_ne, ne_eq]
+        intro h0; subst h0; exact h2 hb
+      simp [bpeDecode, h1, h3]
+
+/-- **BPE, full statement (no NUL guard).**  For every well-formed vocabulary that has a token for each of the 256
+    remapped bytes, every partitioning pre-tokenizer, every specials list (vocabulary string decodes to the literal,
+    literal without NUL) and EVERY byte text: `Decode (Encode s)` is `s` with its NUL bytes removed — the NUL
+    exclusion in the property statement is exactly the loss (U+0100 is skipped by `Decode`), nothing else is. -/
+theorem bpe_roundtrip_nul (V : Vocab) (split : Str → List Str) (specials : List Special) (s : Str)
+    (hwf : V.Wf) (hcov : ∀ b, b < 256 → (V.tokId [encByte false b]).isSome = true)
+    (hsplit : ∀ t, Frag.text t ∈ fragments specials s → (split t).flatten = t)
+    (hsp : ∀ q ∈ specials, decodeRunes (V.tokStr q.id) = q.lit ∧ 0 ∉ q.lit)
+    (hs : ∀ b ∈ s, b < 256) :
+    bpeDecode V (bpeEncode false V split specials noAdd s) = dropNul s := by
+  unfold bpeEncode
+  have hadd : ∀ ids, addSpecials noAdd ids = ids := by intro ids; simp [addSpecials, noAdd]
+  rw [hadd, bpeFrags_roundtrip_all V split hwf hcov, fragments_lit]
+  · intro t ht
+    refine ⟨hsplit t ht, fun b hb => hs b ?_⟩
+    have := mem_fragsLit_of_text _ t ht b hb
+    rwa [fragments_lit] at this
+  · intro q hq
+    exact hsp q (fragments_from specials s _ hq q rfl)
+
+/-- non-vacuity + witness that the guard is needed: `idVocab` covers all 256 bytes; "a\0b" comes back as "ab" -/
+example : (∀ b, b < 256 → (idVocab.tokId [encByte false b]).isSome = true) ∧
+    bpeDecode idVocab (bpeEncode false idVocab byteSplit [] noAdd [97, 0, 98]) = [97, 98] ∧
+    dropNul [97, 0, 98] = [97, 98] := by
+  refine ⟨by decide +kernel, by decide, by decide⟩
+
+
+/-! ## `Encode` as the Go code is written: in-place splitting loop, `merges` array with stored pointers -/
+
+/-- one pre-tokenizer piece through the Go-shaped merge procedure -/
+def goBpePiece (pinned : Bool) (V : Vocab) (piece : Str) : List Nat :=
+  let mapped := piece.map (encByte pinned)
+  match V.tokId mapped with
+  | some id => [id]
+  | none => (goMergeAll (bpeCfg V) mapped).filterMap fun p => V.tokId p.runes
+
+/-- `BytePairEncoding.Encode`, statement by statement: `goFragments` (the slice edited in place while scanned),
+    per fragment the pre-tokenizer pieces, per piece `goMergeAll` (array of `merge{p, n, runes}`, both ends of a popped
+    pair indexed directly, neighbours through the stored pointers), the final loop over the array, BOS/EOS -/
+def goBpeEncode (pinned : Bool) (V : Vocab) (split : Str → List Str) (specials : List Special)
+    (c : AddCfg) (s : Str) : List Nat :=
+  addSpecials c ((goFragments specials s).flatMap fun fr => match fr with
+    | .special sp => [sp.id]
+    | .text t => (split t).flatMap (goBpePiece pinned V))
+
+def goSpmText (V : Vocab) (s : Str) : List Nat :=
+  let text := s.map spaceToSep
+  match V.tokId text with
+  | some id => [id]
+  | none => (goMergeAll (spmCfg V) text).flatMap fun p => spmToken V p.runes
+
+/-- `SentencePieceModel.Encode` in the same shape -/
+def goSpmEncode (V : Vocab) (specials : List Special) (c : AddCfg) (s : Str) : List Nat :=
+  addSpecials c ((goFragments specials s).flatMap fun fr => match fr with
+    | .special sp => [sp.id]
+    | .text t => goSpmText V t)
+
+theorem flatMap_congr' {α β} (l : List α) (f g : α → List β) (h : ∀ x ∈ l, f x = g x) :
+    l.flatMap f = l.flatMap g := by
+  induction l with
+  | nil => rfl
+  | cons x l ih =>
+    simp only [List.flatMap_cons]
+    rw [h x (by simp), ih (fun y hy => h y (List.mem_cons_of_mem _ hy))]
+
+/-- **The Go-shaped `Encode` IS the model `bpeEncode`** the theorems are about (special literals non-empty). -/
+theorem goBpeEncode_eq (pinned : Bool) (V : Vocab) (split : Str → List Str) (specials : List Special)
+    (hne : ∀ q ∈ specials, q.lit ≠ []) (c : AddCfg) (s : Str) :
+    goBpeEncode pinned V split specials c s = bpeEncode pinned V split specials c s := by
+  unfold goBpeEncode bpeEncode
+  rw [goFragments_eq specials hne s]
+  congr 1
+  apply flatMap_congr'
+  intro fr _
+  cases fr with
+  | special sp => rfl
+  | text t =>
+    simp only [bpeFrag]
+    apply flatMap_congr'
+    intro piece _
+    simp only [goBpePiece, bpePiece, goMergeAll_eq]
+    cases V.tokId (List.map (encByte pinned) piece) <;> rfl
+
+theorem goSpmEncode_eq (V : Vocab) (specials : List Special) (hne : ∀ q ∈ specials, q.lit ≠ [])
+    (c : AddCfg) (s : Str) : goSpmEncode V specials c s = spmEncode V specials c s := by
+  unfold goSpmEncode spmEncode
+  rw [goFragments_eq specials hne s]
+  congr 1
+  apply flatMap_congr'
+  intro fr _
+  cases fr with
+  | special sp => rfl
+  | text t =>
+    simp only [spmFrag]
+    simp only [goSpmText, spmText, goMergeAll_eq]
+    cases V.tokId (List.map spaceToSep t) <;> rfl
+
+/-- **Round trip stated for the Go-shaped `Encode`** (repaired switch; every text without NUL). -/
+theorem go_bpe_roundtrip (V : Vocab) (split : Str → List Str) (specials : List Special) (s : Str)
+    (hwf : V.Wf) (hcov : V.CoversBytes false) (hne : ∀ q ∈ specials, q.lit ≠ [])
+    (hsplit : ∀ t, Frag.text t ∈ fragments specials s → (split t).flatten = t)
+    (hsp : ∀ q ∈ specials, decodeRunes (V.tokStr q.id) = q.lit)
+    (hs : ∀ b ∈ s, b < 256 ∧ b ≠ 0) :
+    bpeDecode V (goBpeEncode false V split specials noAdd s) = s := by
+  rw [goBpeEncode_eq false V split specials hne]
+  exact bpe_roundtrip_fixed V split specials s hwf hcov hne hsplit hsp hs
+
+/-- non-vacuity: the Go-shaped encoder run on a text with a special literal, merges and a stale candidate -/
+example :
+    let V : Vocab := ⟨fun s => if s = [97] then some 0 else if s = [97, 97] then some 1 else
+        if s = [97, 97, 97, 97] then some 2 else if s = [98] then some 3 else none,
+      fun _ => [], fun l r => if l = r then some l.length else none, fun _ => 0, 5⟩
+    goBpeEncode false V (fun t => [t]) [⟨[60, 62], [60, 62], 4⟩] noAdd [97, 97, 97, 97, 97, 60, 62, 98] = [1, 0, 1, 4, 3] := by
+  decide
+
+
+/-! ## finding `empty-special-hang`, special-token order, SPM guard 2 made checkable (review round 7) -/
+
+/-- **Witness of finding `empty-special-hang`.**  A special token whose string is empty (a `Values[i] == ""` typed CONTROL):
+    the model's fuel-driven splitter returns (three specials in front of the text), the Go loop never does — after ANY
+    number of iterations its slice has grown by that many fragments and the scan position still points at the same
+    text; the repaired `SpecialVocabulary()` never returns the empty string. -/
+theorem empty_special_diverges_witness :
+    (fragments [⟨[], [], 5⟩] [97, 98]).map Frag.lit = [[], [], [], [97, 98]] ∧
+    (∀ fuel, goSplitPass ⟨[], [], 5⟩ fuel [.text [97, 98]] 0
+      = List.replicate fuel (.special ⟨[], [], 5⟩) ++ [.text [97, 98]]) ∧
+    (∀ (D : VocabData) sps, D.specialStrings true = some sps → [] ∉ sps) := by
+  refine ⟨by decide, fun fuel => ?_, fun D sps h => specialStringsFrom_skip_nonempty _ _ _ _ h⟩
+  have := goSplitPass_empty_diverges ⟨[], [], 5⟩ rfl [97, 98] (by decide) fuel []
+  simpa using this
+
+theorem foldl_split_text_noocc (l : List Special) (t : Str) (h : ∀ q ∈ l, indexOf t q.lit = none) :
+    l.foldl (fun frs sp => splitFrags sp frs) [Frag.text t] = [Frag.text t] := by
+  induction l with
+  | nil => rfl
+  | cons q l ih =>
+    have hq := h q (by simp)
+    simp only [List.foldl_cons]
+    have : splitFrags q [Frag.text t] = [Frag.text t] := by
+      simp [splitFrags, splitSpecial, hq]
+    rw [this]
+    exact ih (fun x hx => h x (List.mem_cons_of_mem _ hx))
+
+theorem foldl_split_special_mem (l : List Special) (q : Special) (frs : List Frag) (h : Frag.special q ∈ frs) :
+    Frag.special q ∈ l.foldl (fun frs sp => splitFrags sp frs) frs := by
+  induction l generalizing frs with
+  | nil => exact h
+  | cons sp l ih =>
+    simp only [List.foldl_cons]
+    apply ih
+    simp only [splitFrags, List.mem_flatMap]
+    exact ⟨Frag.special q, h, by simp⟩
+
+/-- **Positional form of clause 3**: the leftmost occurrence of the FIRST-LISTED special token that occurs in the text is
+    always encoded as that token (no `hother`): no earlier-listed special occurs in the text, `sp`'s literal does ⇒ a
+    special fragment for `sp` is among the fragments (and `special_occurrences_consumed` says it is encoded as `[sp.id]`).
+    For later-listed specials the clause can fail: `special_order_witness`. -/
+theorem first_listed_special_consumed (pre post : List Special) (sp : Special) (s : Str)
+    (hpre : ∀ q ∈ pre, indexOf s q.lit = none) (hocc : Occurs sp.lit s) :
+    Frag.special sp ∈ fragments (pre ++ sp :: post) s := by
+  unfold fragments
+  rw [List.foldl_append, List.foldl_cons, foldl_split_text_noocc pre s hpre]
+  apply foldl_split_special_mem
+  cases hi : indexOf s sp.lit with
+  | none => exact absurd hocc (indexOf_none _ _ hi)
+  | some i =>
+    simp only [splitFrags, List.flatMap_cons, List.flatMap_nil, List.append_nil]
+    unfold splitSpecial
+    simp [hi]
+
+/-- SPM analogue of `bpe_special_literal` -/
+theorem spm_special_literal (V : Vocab) (pre post : List Special) (sp : Special) (hne : sp.lit ≠ [])
+    (hother : ∀ q ∈ pre ++ post, indexOf sp.lit q.lit = none) :
+    spmEncode V (pre ++ sp :: post) noAdd sp.lit = [sp.id] := by
+  have hadd : ∀ ids, addSpecials noAdd ids = ids := by intro ids; simp [addSpecials, noAdd]
+  unfold spmEncode
+  rw [hadd]
+  have hfr : fragments (pre ++ sp :: post) sp.lit = [Frag.special sp] := by
+    unfold fragments
+    rw [List.foldl_append, List.foldl_cons,
+      foldl_split_text_noocc pre sp.lit (fun q hq => hother q (by simp [hq]))]
+    have h3 : splitFrags sp [Frag.text sp.lit] = [Frag.special sp] := by
+      simp [splitFrags, splitSpecial, indexOf_self]
+    rw [h3]
+    have h2 : ∀ (l : List Special),
+        l.foldl (fun frs sp => splitFrags sp frs) [Frag.special sp] = [Frag.special sp] := by
+      intro l
+      induction l with
+      | nil => rfl
+      | cons q l ih => simp only [List.foldl_cons]; simpa [splitFrags] using ih
+    exact h2 post
+  rw [hfr]
+  simp [spmFrag]
+
+/-- **The order of the special list decides which of two overlapping special tokens wins**: with `<` listed before
+    `<s>`, the text `<s>` is cut at `<` and the longer token is never produced; listed the other way round it is. -/
+theorem special_order_witness :
+    (fragments [⟨[60], [60], 300⟩, ⟨[60, 115, 62], [60, 115, 62], 301⟩] [60, 115, 62]).map Frag.lit = [[60], [115, 62]] ∧
+    bpeEncode false idVocab byteSplit [⟨[60], [60], 300⟩, ⟨[60, 115, 62], [60, 115, 62], 301⟩] noAdd [60, 115, 62]
+      = [300, 115, 62] ∧
+    bpeEncode false idVocab byteSplit [⟨[60, 115, 62], [60, 115, 62], 301⟩, ⟨[60], [60], 300⟩] noAdd [60, 115, 62]
+      = [301] := by decide
+
+theorem parseByteTok_head (bs : Str) (h : parseByteTok bs ≠ none) : bs.head? = some 60 := by
+  unfold parseByteTok at h
+  split at h
+  · rfl
+  · exact absurd rfl h
+
+theorem utf8_head (r : Nat) (h : (utf8 r).head? = some 60) : r = 60 := by
+  unfold utf8 at h
+  split at h
+  · simpa using h
+  · split at h
+    · simp at h; omega
+    · split at h
+      · simp at h; omega
+      · simp at h; omega
+
+/-- **Guard 2 of the SPM round trip holds for every text without `<`** (a byte-token literal starts with `<`): a
+    decidable, purely textual sufficient condition for `NoByteLit`, for every vocabulary. -/
+theorem noByteLit_of_no_lt (V : Vocab) (s : Str) (h : 60 ∉ s) : NoByteLit V s := by
+  intro pre m post hs _
+  cases hp : parseByteTok (utf8s m) with
+  | none => rfl
+  | some x =>
+    exfalso
+    have hh := parseByteTok_head (utf8s m) (by rw [hp]; simp)
+    cases m with
+    | nil => simp [utf8s] at hh
+    | cons r m =>
+      have hr : (utf8 r).head? = some 60 := by
+        have hpos := utf8_length_pos r
+        cases hu : utf8 r with
+        | nil => rw [hu] at hpos; simp at hpos
+        | cons b bs => simp [utf8s, hu] at hh; simp [hh]
+      have := utf8_head r hr
+      apply h
+      rw [hs, this]
+      simp
+
+/-- a small sentencepiece vocabulary as DATA: ids 0..255 = byte tokens, 256 = `▁`, 257 = `a`; no special tokens -/
+def spmData : VocabData :=
+  ⟨(List.range 256).map byteTok ++ [[sepRune], [97]], List.replicate 256 6 ++ [1, 1],
+   List.replicate 258 0, []⟩
+
+/-- **`concrete_spm_roundtrip_partial` applied inside Lean**: every hypothesis discharged for `spmData` and the text
+    "a a" (guard 2 by `noByteLit_of_no_lt`), the conclusion is the round trip -/
+example : spmDecode spmData.vocab (spmEncode spmData.vocab (spmData.specialsOf (fun x => x) []) noAdd [97, 32, 97])
+    = some (utf8s [97, 32, 97]) :=
+  concrete_spm_roundtrip_partial false spmData [] (by decide +kernel) (by simp)
+    (by unfold VocabData.ScoresOk; decide +kernel) [97, 32, 97]
+    (by decide +kernel) (fun _ => by decide +kernel) (by simp) (by decide) (by decide)
+    (noByteLit_of_no_lt _ _ (by decide))
+
+/-- `spm_roundtrip_partial`'s guard 2 exhibited for the abstract `spmVocab` as well -/
+example : NoByteLit spmVocab [97, 32, 97] := noByteLit_of_no_lt _ _ (by decide)
+
+
+/-- **The Go merge procedure with its array and stored pointers** (`Proofs/TokenizerPtr.lean`) leaves the model's parts -/
+theorem merge_go_array_refines (cfg : Cfg) (rs : Str) : goMergeAll cfg rs = mergeAll cfg rs := goMergeAll_eq cfg rs
+
+/-- **The in-place special-splitting loops** (`Proofs/TokenizerSplit.lean`) compute the model's `fragments` -/
+theorem fragments_go_loop_refines (specials : List Special) (hne : ∀ q ∈ specials, q.lit ≠ []) (s : Str) :
+    goFragments specials s = fragments specials s := goFragments_eq specials hne s
 
 end OllamaVerif.C20
